@@ -173,6 +173,15 @@ Section Inhibit.
     | x :: rest => op_okb pre x && hist_okb (pre ++ [x]) rest
     end.
 
+  (* the latest published update of every fingerprint as a map (what the provider holds before its GC); the
+     executable checks use it instead of asking [latest] per fingerprint (Proofs: latest_map_lookup) *)
+  Definition latest_map (h : list (Z * op)) : gmap (list (string * string)) alert :=
+    foldl (fun m x => match snd x with
+                      | OProcess a => <[a_lbls a := a]> m
+                      | ORestart _ pend => foldl (fun m a => <[a_lbls a := a]> m) m pend
+                      | _ => m
+                      end) ∅ h.
+
   (* currently firing: the alert's latest update is unresolved at now *)
   Definition firing (h : list (Z * op)) (now : Z) (s : alert) : Prop :=
     latest h (a_lbls s) = Some s /\ resolved_at s now = false.
